@@ -142,3 +142,7 @@ func (rr *RecordedRun) Finish(waitCallbacks bool) *Failure {
 	rr.Rec.Blobs = rr.Dir.Blobs
 	return f
 }
+
+// Lock / Unlock guard AsyncErrs and the record while the run is active.
+func (rr *RecordedRun) Lock()   { rr.mu.Lock() }
+func (rr *RecordedRun) Unlock() { rr.mu.Unlock() }
